@@ -303,6 +303,10 @@ func ssaFuncName(f *ssa.Function) string {
 	return f.Name()
 }
 
+// noGoEdges makes reachable() stay within one goroutine: calls made by `go`
+// statements start another root and are not followed.
+var noGoEdges = true
+
 // reachable returns the set of functions reachable in g from the given roots.
 func reachable(g *callgraph.Graph, roots ...*ssa.Function) map[*ssa.Function]bool {
 	seen := map[*ssa.Function]bool{}
@@ -321,14 +325,17 @@ func reachable(g *callgraph.Graph, roots ...*ssa.Function) map[*ssa.Function]boo
 			continue
 		}
 		for _, e := range n.Out {
+			if _, isGo := e.Site.(*ssa.Go); isGo && noGoEdges {
+				continue
+			}
 			if cal := e.Callee.Func; !seen[cal] {
 				seen[cal] = true
 				stack = append(stack, cal)
 			}
 		}
-		// closures created by f are treated as reachable when f is
+		// closures created by f are treated as reachable when f is, unless they are only started with `go`
 		for _, af := range f.AnonFuncs {
-			if !seen[af] {
+			if !seen[af] && !(noGoEdges && onlyGoStarted(f, af)) {
 				seen[af] = true
 				stack = append(stack, af)
 			}
@@ -366,4 +373,32 @@ func sortedFuncNames(m map[*ssa.Function]bool) []string {
 	}
 	sort.Strings(out)
 	return out
+}
+
+// onlyGoStarted: the closure is created in f solely as the operand of go statements.
+func onlyGoStarted(f, lit *ssa.Function) bool {
+	started, other := false, false
+	for _, b := range f.Blocks {
+		for _, ins := range b.Instrs {
+			mc, ok := ins.(*ssa.MakeClosure)
+			if !ok || mc.Fn != ssa.Value(lit) {
+				if g, isGo := ins.(*ssa.Go); isGo && g.Call.Value == ssa.Value(lit) {
+					started = true
+				}
+				continue
+			}
+			refs := mc.Referrers()
+			if refs == nil {
+				continue
+			}
+			for _, r := range *refs {
+				if g, isGo := r.(*ssa.Go); isGo && g.Call.Value == ssa.Value(mc) {
+					started = true
+				} else if _, isDbg := r.(*ssa.DebugRef); !isDbg {
+					other = true
+				}
+			}
+		}
+	}
+	return started && !other
 }
